@@ -890,6 +890,26 @@ theorem inv_fallback {s s' : State} {r} (hi : Inv s) (hs : stepFallback s r = so
     all_goals simp at hs
   next => simp at hs
 
+/-- what an active health check touches: the Host's active counters and the upstream's active
+    status — nothing the passive accounting, the in-flight accounting or the pool is made of -/
+theorem stepActive_core {s s' : State} {c i pass} (hs : stepActive s c i pass = some s') :
+    s'.now = s.now ∧ s'.inflight = s.inflight ∧ s'.fails = s.fails ∧ s'.reqs = s.reqs ∧ s'.log = s.log ∧
+      s'.cfgs = s.cfgs ∧ s'.pool = s.pool ∧ s'.nextHost = s.nextHost := by
+  unfold stepActive at hs
+  split at hs
+  · split at hs
+    · split at hs
+      · split at hs <;> (simp at hs; subst hs; exact ⟨rfl, rfl, rfl, rfl, rfl, rfl, rfl, rfl⟩)
+      · split at hs <;> (simp at hs; subst hs; exact ⟨rfl, rfl, rfl, rfl, rfl, rfl, rfl, rfl⟩)
+    · simp at hs
+  · simp at hs
+
+theorem inv_active {s s' : State} {c i pass} (hi : Inv s) (hs : stepActive s c i pass = some s') : Inv s' := by
+  obtain ⟨h1, h2, h3, h4, h5, h6, _, _⟩ := stepActive_core hs
+  refine inv_cfg_only hi h1 h2 h3 h4 h5 ?_
+  intro x hx
+  simpa only [canceled, h6] using hx
+
 theorem inv_step {s s' : State} (a : Action) (hi : Inv s) (hs : step s a = some s') : Inv s' := by
   cases a with
   | newCfg p => simp [step] at hs; subst hs; exact inv_newCfg p hi
@@ -906,6 +926,7 @@ theorem inv_step {s s' : State} (a : Action) (hi : Inv s) (hs : step s a = some 
   | forget i => exact inv_forget hi hs
   | newIter r => exact inv_newIter hi hs
   | fallback r => exact inv_fallback hi hs
+  | activeCheck c i pass => exact inv_active hi hs
   | tick => simp [step] at hs; subst hs; exact inv_tick hi
 
 theorem inv_reachable {s : State} (h : Reachable s) : Inv s := by
